@@ -224,6 +224,49 @@ VARIANTS = [
 ]
 
 
+# behaviour-preserving refactors: every check named must stay silent
+_LOG = "import logging\nLOG = logging.getLogger(__name__)\n"
+for _prop in ('C03', 'C05', 'C12', 'C13'):
+    VARIANTS.append(V(_prop, 'silent: connection-lost helper in provider', 'dulprovider.py',
+        "        except socket.error:\n            self.event.append(fsm.Events.EVT_17)\n            self.dul_socket.close()\n            self.dul_socket = None\n            return True\n\n        if not data:\n            # Remote port has been closed\n            self.event.append(fsm.Events.EVT_17)\n            self.dul_socket.close()\n            self.dul_socket = None\n            return True\n",
+        "        except socket.error:\n            return self._connection_lost()\n\n        if not data:\n            # Remote port has been closed\n            return self._connection_lost()\n",
+        expect='silent',
+        more=[('dulprovider.py', "    def _process_incoming(self):\n", "    def _connection_lost(self):\n        self.event.append(fsm.Events.EVT_17)\n        self.dul_socket.close()\n        self.dul_socket = None\n        return True\n\n    def _process_incoming(self):\n")]))
+    VARIANTS.append(V(_prop, 'silent: logging in provider and fsm', 'dulprovider.py',
+        "    def _check_timer(self):\n        if self.timer.check() is False:\n", "    def _check_timer(self):\n        if self.timer.check() is False:\n            logging.getLogger(__name__).debug('ARTIM expired')\n",
+        expect='silent',
+        more=[('dulprovider.py', "import collections\n", "import collections\nimport logging\n"),
+              ('fsm.py', "import socket\n\nfrom typing", "import socket\nimport logging\n\nfrom typing"),
+              ('fsm.py', "        self.primitive = pdu.AAbortPDU(source=2, reason_diag=0)\n        if self.dul_socket:", "        logging.getLogger(__name__).warning('aborting')\n        self.primitive = pdu.AAbortPDU(source=2, reason_diag=0)\n        if self.dul_socket:")]))
+for _prop in ('C04', 'C05', 'C12', 'C13'):
+    VARIANTS.append(V(_prop, 'silent: close helper in fsm', 'fsm.py',
+        "        self.timer.stop()\n        self.dul_socket.close()\n        self.dul_socket = None\n        return States.STA_1",
+        "        self.timer.stop()\n        self._close_transport()\n        return States.STA_1", expect='silent',
+        more=[('fsm.py', "    def ae_1(self):\n", "    def _close_transport(self):\n        self.dul_socket.close()\n        self.dul_socket = None\n\n    def ae_1(self):\n")]))
+for _prop in ('C15', 'C16', 'C17', 'C19'):
+    VARIANTS.append(V(_prop, 'silent: response factory helper in sopclass', 'sopclass.py',
+        "    rsp = dimsemessages.CStoreRSPMessage()\n    rsp.message_id_being_responded_to = msg.message_id\n    rsp.affected_sop_instance_uid = msg.affected_sop_instance_uid\n    rsp.sop_class_uid = msg.sop_class_uid\n    rsp.status = int(status)\n    asce.send(rsp, ctx.id)\n",
+        "    rsp = _response_to(dimsemessages.CStoreRSPMessage, msg)\n    rsp.affected_sop_instance_uid = msg.affected_sop_instance_uid\n    rsp.status = int(status)\n    asce.send(rsp, ctx.id)\n",
+        expect='silent',
+        more=[('sopclass.py', "class MessageDispatcher(object):", "def _response_to(rsp_class, msg):\n    rsp = rsp_class()\n    rsp.message_id_being_responded_to = msg.message_id\n    rsp.sop_class_uid = msg.sop_class_uid\n    return rsp\n\n\nclass MessageDispatcher(object):")]))
+for _prop in ('C01', 'C02', 'C12'):
+    VARIANTS.append(V(_prop, 'silent: logging in a decoder', 'pdu.py',
+        "        stream = cStringIO(rawstring)\n        _, reserved1, _, reserved2, reserved3, abort_source, \\\n",
+        "        stream = cStringIO(rawstring)\n        logging.getLogger(__name__).debug('decoding A-ABORT')\n        _, reserved1, _, reserved2, reserved3, abort_source, \\\n",
+        expect='silent', more=[('pdu.py', "import struct\n\nimport six", "import struct\nimport logging\n\nimport six")]))
+for _prop in ('C06', 'C08', 'C10'):
+    VARIANTS.append(V(_prop, 'silent: width helper in dimsemessages', 'dimsemessages.py',
+        "    maxsize = (max_pdu_length or NO_LIMIT_PDU_LENGTH) - 6\n    for chunk", "    maxsize = _fragment_size(max_pdu_length)\n    for chunk",
+        expect='silent',
+        more=[('dimsemessages.py', "    maxsize = (max_pdu_length or NO_LIMIT_PDU_LENGTH) - 6\n    while True", "    maxsize = _fragment_size(max_pdu_length)\n    while True"),
+              ('dimsemessages.py', "def fragment(data_set, max_pdu_length, normal, last):", "def _fragment_size(max_pdu_length):\n    return (max_pdu_length or NO_LIMIT_PDU_LENGTH) - 6\n\n\ndef fragment(data_set, max_pdu_length, normal, last):")]))
+for _prop in ('C09', 'C10', 'C14'):
+    VARIANTS.append(V(_prop, 'silent: accept() iterates items directly', 'asceprovider.py',
+        "        requested = (\n            (item.context_id, item.abs_sub_item.name, item.ts_sub_items)\n            for item in assoc_req.variable_items[1:-1]\n        )\n\n        for pc_id, proposed_sop, proposed_ts in requested:\n",
+        "        for item in assoc_req.variable_items[1:-1]:\n            pc_id, proposed_sop, proposed_ts = item.context_id, item.abs_sub_item.name, item.ts_sub_items\n",
+        expect='silent'))
+
+
 def _generated():
     """One rebind variant per transition-table cell (C04.T3/T4 must report that cell)."""
     import os, re
